@@ -312,7 +312,7 @@ StructFeatures == {
     "st_const_scalars", "st_const_set_str", "st_const_set_int", "st_const_set_enum", "st_const_set_superset", "st_const_set_empty",
     "st_const_str_odd", "st_in_const_set", "st_in_const_set_enum",
     "st_wmt_true", "st_wmt_false", "st_no_props", "st_only_opt_props", "st_diamond", "st_deep", "st_two_roots", "st_cprim_unused",
-    "st_cprim_chain_invs", "st_class_inv_on_inherited", "st_abstract_with_inv"}
+    "st_cprim_chain_invs", "st_class_inv_on_inherited", "st_abstract_with_inv", "st_diamond_cprim", "st_diamond_documented"}
 
 \* --- invariant expression shapes -----------------------------------------------------------------
 ExprFeatures == {
@@ -325,7 +325,7 @@ NameFeatures == {
     "nm_class_case_collision", "nm_class_enum_collision", "nm_prop_case_collision", "nm_prop_method_collision", "nm_literal_collision",
     "nm_const_collision", "nm_fn_collision", "nm_class_interface_collision", "nm_cprim_class_collision", "nm_keyword_props", "nm_keyword_class",
     "nm_keyword_literals", "nm_digit_parts", "nm_upper_parts", "nm_long_name", "nm_prop_like_builtin", "nm_literal_value_collision",
-    "nm_arg_collision", "nm_class_like_generated"}
+    "nm_arg_collision", "nm_class_like_generated", "nm_lowercase_class", "nm_lowercase_enum", "nm_uppercase_members"}
 
 DocFeatures == {"doc_on_class", "doc_on_prop", "doc_on_enum", "doc_on_literal", "doc_on_cprim", "doc_on_fn", "doc_on_const", "doc_on_module",
                 "doc_on_method", "doc_on_abstract"}
@@ -516,6 +516,22 @@ ApplyStruct(f, t, m) ==
             LET m1 == AddCPrim(m, [CPrim("Short_name", "Name") EXCEPT !.invs = <<LenC("self", "le", "8", "Short name at most 8")>>]) IN
             AddTyped(m1, "short_name", Ref("Short_name"))
       [] f = "st_class_inv_on_inherited" -> AddInv(m, S, Raw("self.count > 0 or len(self.text) > 0", {"count", "text"}, FreshDesc(m, "Count or text")))
+      [] f = "st_diamond_cprim" ->
+            \* a property typed with a constrained primitive that reaches a class along two inheritance paths
+            LET m1 == AddCPrim(m, [CPrim("Tag", "str") EXCEPT !.invs = <<LenC("self", "gt", "0", "Tag is non-empty")>>])
+                D(c, d) == [c EXCEPT !.doc = d]
+                m2 == AddClass(AddClass(AddClass(AddClass(m1,
+                          D(Class("Top_t", <<>>, TRUE, <<Prop("tag", Ref("Tag"))>>), "Represent the top.")),
+                          D(Class("Left_t", <<"Top_t">>, TRUE, <<>>), "Represent the left.")),
+                          D(Class("Right_t", <<"Top_t">>, TRUE, <<>>), "Represent the right.")),
+                          D(Class("Bottom_t", <<"Left_t", "Right_t">>, FALSE, <<>>), "Represent the bottom."))
+            IN AddTyped(m2, "bottom", OptOf(Ref("Bottom_t")))
+      [] f = "st_diamond_documented" ->
+            LET D(c, d) == [c EXCEPT !.doc = d] IN
+            AddClass(AddClass(AddClass(AddClass(m, D(Class("Top_d", <<>>, TRUE, <<Prop("top_value", IntT)>>), "Represent the top.")),
+                     D(Class("Left_d", <<"Top_d">>, TRUE, <<Prop("left_value", IntT)>>), "Represent the left.")),
+                     D(Class("Right_d", <<"Top_d">>, TRUE, <<Prop("right_value", IntT)>>), "Represent the right.")),
+                     D(Class("Bottom_d", <<"Left_d", "Right_d">>, FALSE, <<Prop("bottom_value", IntT)>>), "Represent the bottom."))
       [] f = "st_abstract_with_inv" -> AddInv(m, "Parent", LenC("text", "le", "100", FreshDesc(m, "Parent text at most 100")))
 
 \* invariant expression shapes; "uses" lists the properties the text mentions (checked by R_InvariantsResolve)
@@ -599,6 +615,11 @@ ApplyName(f, t, m) ==
             AddProp(AddProp(AddProp(AddProp(AddProp(AddProp(AddProp(AddProp(m, S, Prop("value", OptOf(IntT))), S, Prop("that", OptOf(IntT))), S, Prop("result", OptOf(IntT))),
                     S, Prop("errors", OptOf(IntT))), S, Prop("jsonable", OptOf(IntT))), S, Prop("element", OptOf(IntT))), S, Prop("visitor", OptOf(IntT))), S, Prop("context", OptOf(IntT)))
       [] f = "nm_arg_collision" -> AddProp(AddProp(m, S, Prop("the_text", OptOf(IntT))), S, Prop("a_text", OptOf(IntT)))
+      [] f = "nm_lowercase_class" -> AddTyped(AddClassFirst(m, Class("lower_case_thing", <<>>, FALSE, <<Prop("value", IntT)>>)), "lower_thing", OptOf(Ref("lower_case_thing")))
+      [] f = "nm_lowercase_enum" -> AddTyped(AddEnum(m, Enum("lower_case_enum", <<Lit("lower_literal", "x"), Lit("Upper_literal", "y")>>)), "lower_enum", OptOf(Ref("lower_case_enum")))
+      [] f = "nm_uppercase_members" ->
+            AddConst(AddFn(AddMethod(AddProp(AddProp(m, S, Prop("Upper_prop", OptOf(IntT))), S, Prop("URL", OptOf(IntT))), S, Method("Upper_method", "impl")),
+                           PatFn("Matches_upper", "^a$")), Const("lower_const", "str", "x"))
       [] f = "nm_class_like_generated" ->
             AddClass(AddClass(AddClass(AddClass(m, Class("Types", <<>>, FALSE, <<Prop("value", IntT)>>)), Class("Common", <<>>, FALSE, <<Prop("value", IntT)>>)),
                      Class("Reporting", <<>>, FALSE, <<Prop("value", IntT)>>)), Class("Abstract_visitor", <<>>, FALSE, <<Prop("value", IntT)>>))
